@@ -3,6 +3,7 @@
 from __future__ import annotations
 
 import ast
+import typing as t
 
 from . import astq
 from .cfg import guards_of
@@ -432,3 +433,126 @@ def whitespace_notion_rule(ctx: Ctx, rid: str) -> None:
                 if rule.pat.origin == "inline" and (rule.pat.flags & _re.ASCII or "(?a" in rule.pat.pattern):
                     n_asc += 1
     ctx.check(n_asc == 0, "tag-rules:unicode", "lexer:Lexer.__init__", "tag rules compiled with re.ASCII", "the rules Lexer.__init__ builds must not be ASCII-restricted (their \\s* strips what str.rstrip() strips)", "src/jinja2/lexer.py")
+
+
+def delimiters_escaped_rule(ctx: Ctx, rid: str) -> None:
+    """Every configurable delimiter / prefix reaches a regular expression only through
+    re.escape (directly or via a local alias); the other uses are len(), tests against None and
+    truth tests.  Shared by C01 (a raw metacharacter makes `re.compile` raise re.error while
+    loading), C11 / C13 (it changes what the delimiter matches)."""
+    ctx.rule(rid, "delimiter and prefix strings of the environment are interpolated into lexer patterns only as re.escape(<string>)")
+    n = 0
+    for spec in ("lexer:compile_rules", "lexer:Lexer.__init__"):
+        fi = ctx.repo.func(spec)
+        esc_names = {"re.escape"}
+        for a in ast.walk(fi.node):
+            if isinstance(a, ast.Assign) and ast.unparse(a.value) == "re.escape":
+                esc_names |= {t_.id for t_ in a.targets if isinstance(t_, ast.Name)}
+
+        def context_ok(x: ast.AST) -> bool:
+            par = getattr(x, "_parent", None)
+            if isinstance(par, ast.Call) and astq.callee(par) in esc_names | {"len"} and any(a_ is x for a_ in par.args):
+                return True
+            if isinstance(par, ast.Compare) and all(isinstance(o, (ast.Is, ast.IsNot)) for o in par.ops):
+                return True
+            if isinstance(par, (ast.If, ast.IfExp, ast.While)) and par.test is x:
+                return True
+            if isinstance(par, (ast.BoolOp, ast.UnaryOp)):
+                return context_ok(par)
+            return False
+
+        sites: list[tuple[str, ast.AST]] = []
+        for x in ast.walk(fi.node):
+            if isinstance(x, ast.Attribute) and isinstance(x.value, ast.Name) and x.value.id == "environment" and x.attr.endswith(("_string", "_prefix")):
+                par = getattr(x, "_parent", None)
+                if isinstance(par, ast.Assign) and par.value is x and len(par.targets) == 1 and isinstance(par.targets[0], ast.Name):
+                    # a local naming the raw string: its loads obey the same discipline
+                    loc = par.targets[0].id
+                    binds = sorted(a_.lineno for a_ in ast.walk(fi.node) if isinstance(a_, ast.Assign) and any(isinstance(t_, ast.Name) and t_.id == loc for t_ in a_.targets))
+                    for y in ast.walk(fi.node):
+                        if isinstance(y, ast.Name) and y.id == loc and isinstance(y.ctx, ast.Load):
+                            # (straight-line rebinding: a load belongs to the closest binding above it)
+                            if max([b for b in binds if b <= y.lineno], default=par.lineno) == par.lineno:
+                                sites.append((x.attr, y))
+                else:
+                    sites.append((x.attr, x))
+        for attr, x in sites:
+            n += 1
+            ok = context_ok(x)
+            ctx.check(ok, f"{fi.node.name}:{attr}:{n}", spec, f"`{attr}` used unescaped" if not ok else f"{attr} escaped",
+                      f"{fi.node.name} puts environment.{attr} into a pattern without re.escape (`{ast.unparse(astq.stmt_of(x))[:90]}`): a delimiter containing a regex metacharacter ('<?', '\\\\BLOCK{{', '#.', '*') then matches something else - plain text is taken for a tag or a comment - or makes re.compile raise re.error while the template is loaded",
+                      fi.loc(x), detail={"attribute": attr})
+    ctx.floor("delimiter uses in lexer patterns", n, 14)
+
+
+def group_coverage_rule(ctx: Ctx, rid: str) -> None:
+    """tokeniter counts line breaks group by group for a rule with several tokens: a part of
+    such a pattern that can match a line break must lie inside a capture group."""
+    import re._parser as sre_parse  # type: ignore[import-not-found]
+    import re._constants as sre_c  # type: ignore[import-not-found]
+
+    ctx.rule(rid, "multi-token lexer rules: every part of the pattern that can consume a line break lies inside a capture group (tokeniter adds up line breaks per group)")
+
+    def can_nl(item: t.Any) -> bool:
+        op, av = item
+        if op is sre_c.LITERAL:
+            return av in (10, 13)
+        if op is sre_c.NOT_LITERAL:
+            return True
+        if op is sre_c.ANY:
+            return True
+        if op is sre_c.IN:
+            def member(ch: int) -> bool:
+                hit = False
+                for o, v in av:
+                    if o is sre_c.LITERAL and v == ch:
+                        hit = True
+                    elif o is sre_c.RANGE and v[0] <= ch <= v[1]:
+                        hit = True
+                    elif o is sre_c.CATEGORY and v in (sre_c.CATEGORY_SPACE, sre_c.CATEGORY_NOT_DIGIT, sre_c.CATEGORY_NOT_WORD, sre_c.CATEGORY_LINEBREAK):
+                        hit = True
+                neg = any(o is sre_c.NEGATE for o, _ in av)
+                return hit != neg
+            return member(10) or member(13)
+        if op in (sre_c.MAX_REPEAT, sre_c.MIN_REPEAT, sre_c.POSSESSIVE_REPEAT):
+            return av[1] > 0 and any(can_nl(i) for i in av[2])
+        if op is sre_c.SUBPATTERN:
+            return any(can_nl(i) for i in av[3])
+        if op is sre_c.BRANCH:
+            return any(can_nl(i) for alt in av[1] for i in alt)
+        if op is sre_c.ATOMIC_GROUP:
+            return any(can_nl(i) for i in av)
+        return False  # AT, ASSERT, ASSERT_NOT, GROUPREF (text counted where captured)
+
+    def uncovered(seq: t.Any) -> list[t.Any]:
+        out = []
+        for op, av in seq:
+            if op is sre_c.SUBPATTERN:
+                if av[0] is not None:
+                    continue  # capturing: counted by tokeniter
+                out += uncovered(av[3])
+            elif op is sre_c.BRANCH:
+                for alt in av[1]:
+                    out += uncovered(alt)
+            elif can_nl((op, av)):
+                out.append((op, av))
+        return out
+
+    n = 0
+    for cfg in configs():
+        lm = LexModel(ctx.repo, cfg)
+        for state, rules in lm.rules.items():
+            for r in rules:
+                multi = isinstance(r.tokens, tuple) and not (len(r.tokens) == 1 and isinstance(r.tokens[0], tuple))
+                if not multi:
+                    continue
+                n += 1
+                try:
+                    tree = sre_parse.parse(r.pat.pattern, r.pat.flags)
+                except Exception as e:  # noqa: BLE001
+                    ctx.need(False, f"lexer rule of state {state} does not parse: {e}")
+                bad = uncovered(tree)
+                ctx.check(not bad, f"{state}:{r.lineno}:trim={cfg['trim_blocks']},lstrip={cfg.get('lstrip_blocks')}", "lexer:Lexer.__init__", f"{len(bad)} line-break capable part(s) outside the capture groups" if bad else "all covered",
+                          f"the rule of state `{state}` has several tokens, so tokeniter advances `lineno` by the line breaks of each *group*; the pattern {r.pat.pattern!r} can consume a line break outside every capture group ({len(bad)} part(s)): after such a match (`{{% endraw -%}}` followed by blank lines, trim_blocks) all later tokens, syntax errors and tracebacks carry a line number that is too small",
+                          f"src/jinja2/lexer.py:{r.lineno}")
+    ctx.floor("multi-token lexer rules", n, 4)
